@@ -41,7 +41,7 @@ CONSTANTS
   FALLBACK,      \* subset of BOOLEAN: is a fallback port configured (WithTLSPortPolicy)
   DEV_ImplicitDot, DEV_NoRsetAfterDataReject, DEV_ContinueAfterRsetFail,
   DEV_LeakOnDialError, DEV_QuitFailureLeavesConn, DEV_NoDeadlineInDial,
-  DEV_NoopBeforeDeadline, DEV_WindowStaysOpen
+  DEV_NoopBeforeDeadline, DEV_WindowStaysOpen, DEV_FallbackInClear
 
 VARIABLES cl,    \* client state (record)
           env,   \* environment bookkeeping: fault budget, history, predicted projection
@@ -238,11 +238,38 @@ DialConnect ==
                                              !.hist = Append(@, [v |-> "DIAL", m |-> 0, r |-> 0, c |-> "refuse", sh |-> "none"])]
                  ELSE env IN
        /\ env' = e1
-       /\ IF refused /\ ~(cfg.fallback /\ cfg.policy = "opportunistic")   \* SetTLSPortPolicy: 587, fallback 25 only when opportunistic
+       /\ IF cfg.policy = "implicit"
+          \* WithSSLPort: the dial function is a tls.Dialer, the handshake is part of the dial; when the
+          \* primary port cannot be dialled (refused, or the handshake fails) the fallback port - if
+          \* configured - is dialled the same way
+          THEN obs' = o0 /\ cl' = [cl EXCEPT !.pc = IF refused THEN (IF cfg.fallback THEN "ifallback" ELSE "dialRet") ELSE "ihandshake",
+                                             !.top = IF refused /\ ~cfg.fallback THEN "dial" ELSE @,
+                                             !.dead = refused /\ ~cfg.fallback]
+          ELSE
+          IF refused /\ ~(cfg.fallback /\ cfg.policy = "opportunistic")   \* SetTLSPortPolicy: 587, fallback 25 only when opportunistic
           THEN obs' = o0 /\ cl' = [cl EXCEPT !.pc = "dialRet", !.top = "dial", !.dead = TRUE]
           ELSE LET o1 == Observe(o0, [ev |-> "open"]) IN
                IF DEV_NoDeadlineInDial \/ Raw THEN obs' = o1 /\ Goto("greeting")
                ELSE obs' = SetDl(o1, TRUE) /\ cl' = [cl EXCEPT !.pc = "greeting", !.armed = TRUE]
+
+(* implicit TLS: the handshake happens before anything else; its outcome is a scenario parameter *)
+ImplicitHandshake ==
+  /\ cl.pc = "ihandshake"
+  /\ UNCHANGED <<env, cfg>>
+  /\ IF cfg.hs = "ok"
+     THEN obs' = Observe(obs, [ev |-> "tls", ok |-> TRUE]) /\ cl' = [cl EXCEPT !.pc = "greeting", !.tls = TRUE, !.armed = TRUE]
+     ELSE /\ obs' = Observe(obs, [ev |-> "tls", ok |-> FALSE])
+          /\ cl' = [cl EXCEPT !.pc = IF cfg.fallback THEN "ifallback" ELSE "dialRet", !.top = "dial", !.dead = ~cfg.fallback]
+
+(* the fallback port (25) is dialled with TLS as well; the server there speaks cleartext SMTP: it sees *)
+(* a TLS ClientHello and nothing else, the dial fails. With DEV_FallbackInClear the client talks      *)
+(* cleartext SMTP to it instead.                                                                       *)
+ImplicitFallback ==
+  /\ cl.pc = "ifallback"
+  /\ UNCHANGED <<env, cfg>>
+  /\ IF DEV_FallbackInClear
+     THEN obs' = obs /\ cl' = [cl EXCEPT !.pc = "greeting", !.armed = TRUE, !.dead = FALSE, !.top = ""]
+     ELSE obs' = Observe(obs, [ev |-> "tlshello"]) /\ cl' = [cl EXCEPT !.pc = "dialRet", !.top = "dial", !.dead = TRUE]
 
 (* smtp.NewClient reads the greeting and closes the connection itself when *)
 (* it is not a 220                                                         *)
@@ -263,7 +290,7 @@ ReadGreeting ==
 CmdEhlo ==
   /\ cl.pc = "ehlo"
   /\ \E ch \in DialChoices :
-       LET adv == Advertised(FALSE)
+       LET adv == Advertised(cl.tls)
            x == X("EHLO", 0, 1, <<>>, FALSE, "", ch, IF ch.c = "ok" THEN SetToSeq(adv) ELSE <<>>, 250) IN
        /\ obs' = x.obs /\ env' = x.env
        /\ IF Blocks(ch) THEN Goto("blocked")
@@ -288,7 +315,7 @@ CmdHelo ==
 PolicyDecision ==
   /\ cl.pc = "policy"
   /\ UNCHANGED <<env, cfg>>
-  /\ CASE cfg.policy = "none" \/ Raw -> Goto("authSel") /\ obs' = obs
+  /\ CASE cfg.policy \in {"none", "implicit"} \/ Raw -> Goto("authSel") /\ obs' = obs   \* useSSL: no STARTTLS
        [] cfg.policy = "mandatory" /\ "STARTTLS" \notin cl.ext ->
               obs' = DialFail(obs) /\ cl' = [cl EXCEPT !.pc = "dialRet", !.top = "dial", !.dead = TRUE]
        [] cfg.policy = "opportunistic" /\ "STARTTLS" \notin cl.ext -> Goto("authSel") /\ obs' = obs
@@ -645,7 +672,7 @@ FinalRet ==
   /\ Goto("done")
   /\ UNCHANGED <<env, cfg>>
 
-Next == \/ DialConnect \/ ReadGreeting \/ CmdEhlo \/ CmdHelo \/ PolicyDecision \/ CmdStartTLS \/ Handshake
+Next == \/ DialConnect \/ ImplicitHandshake \/ ImplicitFallback \/ ReadGreeting \/ CmdEhlo \/ CmdHelo \/ PolicyDecision \/ CmdStartTLS \/ Handshake
         \/ CmdEhloAfterTLS \/ AuthSelect \/ AuthStart \/ AuthMsg \/ AuthAbort \/ AuthQuit \/ DialOK \/ DialRet
         \/ ResetBegin \/ ResetNoop \/ ResetRset \/ SendBegin \/ Noop0 \/ MsgStart \/ CmdMail \/ CmdRcpt \/ CmdData \/ WriteContent
         \/ CloseData \/ PostNoop \/ PostRset \/ FailRset \/ NextMsg \/ SendRet \/ CmdQuit \/ FinalRet
